@@ -68,13 +68,13 @@ PROPS = {"C01": check, "C02": check, "C03": check}
 _NOTE = ("Trusted: Coq 8.16.1 kernel + vm_compute; no axioms (Print Assumptions: closed under the global context); the Go correspondence harness "
          "dispatchh (hook callback, projection of the trace, interning of identities, Gallina printing) and the add-only verifPoint hooks in graph.go; "
          "channel / select / WaitGroup / context / sync.Map semantics are modelled as the transition system of Dispatch.v, not verified; node behaviour is an oracle.")
-_TECH = "Coq proof over a transition-system model (all schedules, all cancel points) + executable trace acceptor (vm_compute) on hook traces of the real Send under forced schedules"
+_TECH = "verdict proved equivalent to its declarative reading (RunDispatchSound.mismatches_nil_iff: mismatches = [] <-> every case is a model execution from the registry model's pipelines with the observed Status/error and oracles); Coq proof over a transition-system model (all schedules, all cancel points) + executable trace acceptor (vm_compute) on hook traces of the real Send under forced schedules"
 MANIFEST = {
     "C01": {"text": "Dispatch.v (LTS of graph.process/doProcess at hook granularity, ghost call logs) + Broker.v; theorems traverse_prefix / traverse_chain / traverse_first, calls_are_traversal and call_log_sound (any schedule, any cancel point: calls = one traversal prefix per started pipeline, started is a sub-multiset, nothing skipped while the context is live), send_traverses_exactly (uncancelled terminal state: call multiset = traversals of all registered pipelines), roots_of_broker_spec (after every registration history Send dispatches to exactly the type's pipelines, ids in order), accepted_trace_is_execution; tie: dispatchh records hook traces of real Sends (all ending shapes for <=3 pipelines x <=3 nodes, random registries with shared nodes / overwrites / re-registered nodes over 3 types, random behaviours per visit, perturbed and cancelled schedules) and Run_Dispatch accepts them, comparing the nodes' own invocation log and event identities", "design_ref": "5.C01", "note": _NOTE, "technique": _TECH, "engine": "coq-dispatch"},
     "C02": {"text": "theorems status_never_invented (every reachable state, any cancel point: the report is exactly one final status per pipeline of a sub-multiset of the registered pipelines), final_status_spec, status_sound, status_complete_uncancelled / status_count_uncancelled, status_count_bound, complete_sinks_spec, send_error_iff, send_error_wraps_ctx, no_graph_no_roots, threshold_set_get / threshold_sinks_set_get / threshold_last_set (all histories) / threshold_rejects_negative / threshold_frame; tie: all outcome vectors x both thresholds 0..n+1 with shared sink ids, cancellation forced at every semantic hook position of reference runs in three hand-off orders, returned Status multisets / error nil / errors.Is(ctx.Err()) compared with the model's collector and get_error; threshold getters compared on random registry histories by the broker engine", "design_ref": "5.C02", "note": _NOTE, "technique": _TECH, "engine": "coq-dispatch"},
     "C03": {"text": "theorems dispatch_measure / executions_bounded (every execution finite), dispatch_progress (no deadlock: a non-terminal state waits only for a node inside Process), reaches_terminal, can_terminate, collector_returns_on_cancel (two own steps, tasks untouched), collector_returns_when_done, terminal_no_goroutine, no_send_after_close, wg_counts_live (no panic) for any pipelines / nodes / behaviours / schedules; tie: hook traces of forced-cancel runs (every hook position x collector-first / free / senders-first, gated nodes still running while Send returns) must be accepted and complete once all nodes returned (every invocation exited, channel closed), watchdog on Send, goroutine dump filtered to eventlogger.(*graph); partial: wall-clock promptness is measured only", "design_ref": "5.C03", "note": _NOTE, "technique": _TECH, "engine": "coq-dispatch"},
 }
-ENGINE = {"name": "coq-dispatch", "path": "coq/Dispatch.v coq/DispatchProofs.v coq/DispatchAcceptProofs.v coq/DispatchExamples.v coq/Run_Dispatch.v harness/cmd/dispatchh lib/eng_dispatch.py",
+ENGINE = {"name": "coq-dispatch", "path": "coq/Dispatch.v coq/DispatchProofs.v coq/DispatchAcceptProofs.v coq/DispatchExamples.v coq/Run_Dispatch.v coq/RunDispatchSound.v harness/cmd/dispatchh lib/eng_dispatch.py",
           "serves_properties": ["C01", "C02", "C03"], "kind_free_text": "Coq LTS model + proofs; Go hook-trace driver with forced schedules; vm_compute trace acceptor"}
 
 
